@@ -45,8 +45,9 @@ RULE = ("(a) Hypothesis-generated operation histories (up to 30 steps quick / 50
 ASSUMPTIONS = [
     "Namespaces as in the property: houses (House.Names); taskers, framers and loggers of a house (one registry, "
     "Tasker.Names / house.names['tasker']); logs (Log.Names / house.names['log']); frames of a framer (framer.frameNames)",
-    "Registries are cleared only the way Builder.build does it (House.Clear() together with housing.ClearRegistries()); "
-    "houses and framers created before a clear are dead afterwards (never re-assigned or cloned)",
+    "Registries are cleared the way Builder.build does it (House.Clear() together with housing.ClearRegistries()); "
+    "houses and framers created before such a clear are dead afterwards (never re-assigned or cloned). In addition one "
+    "class registry may be cleared on its own (Tasker.Clear() / Log.Clear()); the houses stay live then",
     "A rejected explicit duplicate may still advance the class Counter (not observable in the registry)",
     "Framer.clone is only applied to framers whose store belongs to a house (it calls store.house.assignRegistries())",
     "The shadow class attributes Framer.Counter / Logger.Counter that Registrar creates are removed before each case "
@@ -94,6 +95,9 @@ def op_strategy():
         st.builds(lambda h: {"op": "assign", "h": h}, idx), st.builds(lambda h: {"op": "assign", "h": h}, idx),
         st.builds(lambda f: {"op": "fassign", "f": f}, idx), st.builds(lambda f: {"op": "fassign", "f": f}, idx),
         st.just({"op": "clear"}),
+        # one class registry cleared on its own (Registrar.Clear of Tasker or Log): the houses stay alive and a
+        # later assignRegistries must make ALL of the house's registries current again
+        st.sampled_from([{"op": "clear1", "which": "tasker"}, {"op": "clear1", "which": "log"}]),
     )
 
 
@@ -277,6 +281,14 @@ def run_history(ops):
             houses = []
             framers = []
             labels.add("clear")
+        elif kind == "clear1":
+            if op["which"] == "tasker":
+                tasking.Tasker.Clear()
+                cur["tasker"] = new_ns("tasker:free", tasking.Tasker.Names)
+            else:
+                iologging.Log.Clear()
+                cur["log"] = new_ns("log:free", iologging.Log.Names)
+            labels.add("clear-one-registry")
         elif kind == "assign":
             if not houses:
                 labels.add("assign:nohouse")
